@@ -70,6 +70,68 @@ func ruleCmdIdent(c *Ctx) {
 			}
 		}
 	}
+	// tables keyed by command names (package-level `map[string]T{"multi": …}` whose keys are all command tokens): every
+	// lookup uses a key that went through the case normaliser, like the lookups of the handler table itself
+	hs, herr := c.M.Handlers()
+	if herr == nil {
+		lowered := p.runTaint(func(v ssa.Value) bool {
+			call, ok := v.(*ssa.Call)
+			if !ok {
+				return false
+			}
+			nm := fullCalleeName(call)
+			return nm == "strings.ToLower" || nm == "strings.ToUpper"
+		}, isStr)
+		cmdTable := map[*ssa.Global]bool{}
+		for name, m := range p.SPkg.Members {
+			g, ok := m.(*ssa.Global)
+			if !ok {
+				continue
+			}
+			mt, ok := deref(g.Type()).Underlying().(*types.Map)
+			if !ok || !isStr(mt.Key()) {
+				continue
+			}
+			keys, _, ok := p.stringKeyedLiteral(p.globalInit(name))
+			if !ok || len(keys) < 2 {
+				continue
+			}
+			all := true
+			for _, k := range keys {
+				if hs[k] == nil {
+					all = false
+				}
+			}
+			if all {
+				cmdTable[g] = true
+			}
+		}
+		for _, fn := range c.SrcFuncs() {
+			ord := 0
+			for _, in := range instrsOf(fn) {
+				lk, ok := in.(*ssa.Lookup)
+				if !ok {
+					continue
+				}
+				u, ok := lk.X.(*ssa.UnOp)
+				if !ok {
+					continue
+				}
+				g, ok := u.X.(*ssa.Global)
+				if !ok || !cmdTable[g] {
+					continue
+				}
+				n++
+				ord++
+				key := fmt.Sprintf("%s:lookup %s#%d", fnName(fn), p.canonGlobalName(g), ord)
+				if lowered.tainted[lk.Index] || norm.tainted[lk.Index] {
+					c.S.OK("R-cmdident", key, c.Pos(lk.Pos()), "the table of command names is consulted with the normalised name")
+				} else {
+					c.S.Bad("R-cmdident", key, c.Pos(lk.Pos()), fmt.Sprintf("%s looks a command up in %s with a name that did not go through the case normaliser: EXEC, Multi or WATCH typed in another case is not recognised there although the handler table (normalised lookup) accepts it", fnName(fn), g.Name()))
+				}
+			}
+		}
+	}
 	if n == 0 {
 		c.S.Trivial("R-cmdident", "none", "-", "no comparison of command identity with a constant in handler code")
 	}
